@@ -58,6 +58,8 @@ pub fn step(wide: bool) -> BoxedStrategy<Step> {
             1 => Just(Step::Last),
             1 => Just(Step::Fold),
             1 => Just(Step::RevCollect),
+            1 => (0u8..4).prop_map(Step::Skip),
+            1 => (0u8..3).prop_map(Step::StepBy),
         ]
         .boxed()
     } else {
@@ -149,7 +151,7 @@ pub fn op(w: Weights, maxn: u32) -> BoxedStrategy<Op> {
         (w.view / 2 + 1, any::<bool>().prop_map(Op::Dbg).boxed()),
         (w.view / 2 + 1, Just(Op::ToVec).boxed()),
         (w.view / 2 + 1, Just(Op::MoveBuf).boxed()),
-        (w.drain, (range(), script(ws, 6)).prop_map(|(r, s)| Op::Drain(r, s, End::Drop)).boxed()),
+        (w.drain, (range(), script(true, 6)).prop_map(|(r, s)| Op::Drain(r, s, End::Drop)).boxed()),
         (w.ctor, any::<bool>().prop_map(Op::CloneBuf).boxed()),
         (w.ctor, (0u32..20).prop_map(Op::FromArray).boxed()),
         (w.ctor, (count(maxn), hint()).prop_map(|(m, h)| Op::FromIter(m, h)).boxed()),
